@@ -51,7 +51,7 @@ var I32Table = []int32{0, 1, -1, -16, -17, 47, 48, -2048, -2049, 2047, 2048, -26
 var I64Table = []int64{0, 1, -1, -8, -9, 15, 16, -2048, -2049, 2047, 2048, -262144, -262145, 262143, 262144, math.MinInt32, math.MaxInt32, math.MinInt32 - 1, math.MaxInt32 + 1, math.MinInt64, math.MaxInt64, 1 << 40, -(1 << 40)}
 var F64Table = []float64{0, 1, -1, 2, 100, -100, 127, 128, -128, -129, 32767, 32768, -32768, -32769, 0.5, -0.5, 3.25, 1e10, 1.1, math.MaxFloat32, math.SmallestNonzeroFloat64, math.MaxFloat64, math.Inf(1), math.Inf(-1)}
 var LenTable = []int{0, 1, 2, 3, 7, 8, 9, 15, 16, 17, 31, 32, 33, 255, 256, 257, 263, 264, 300, 600, 1023, 1024, 1025, 2100}
-var StrLenTable = []int{0, 1, 2, 15, 16, 31, 32, 33, 255, 256, 1023, 1024, 1025}
+var StrLenTable = []int{0, 1, 2, 15, 16, 31, 32, 33, 255, 256, 1023, 1024, 1025, 2047, 2048, 2049, 4096, 4097}
 
 var runeTable = []rune{'a', 'b', 'Z', '0', ' ', '_', 0x7f, 0x80, 0xe9, 0x7ff, 0x800, 0x4e16, 0xfffd, 0x10000, 0x1f600, 0x10ffff}
 
